@@ -12,9 +12,11 @@ One `poll` of one call future is one step.
 * leader: polls the inner future; when that is ready, `complete` removes the key from the map
   and sends a clone of the result into the channel, then the sender is dropped (the value
   stays buffered for the receivers): channel `sent r`;
-* dropping an unfinished leader (`Drop for CoalesceFuture`, also during the unwinding of a
-  panic of the inner future) removes the key and drops the sender without a value: channel
-  `closed`; the inner future is dropped with it (`inner_drop`);
+* dropping an unfinished leader (`Registration::drop`, a field of `CoalesceFuture::Leading`; also
+  when the future is destroyed by, or after, the unwinding of a panic of the inner future — the
+  model has one step for both, see `TR.Lemmas.CoalesceUnwind` —, or of a panic raised by the
+  `Clone` of the result the leader is about to publish, `clonePanic`) removes the key and drops
+  the sender without a value: channel `closed`; the inner future is dropped with it (`inner_drop`);
 * waiter: `try_recv` — a buffered value is returned (`Service` errors are passed on with the
   leader's serial number), a closed empty channel gives `err:leader_cancelled`, an open empty
   one gives `Pending` after `cx.waker().wake_by_ref()` (a busy-poll: the waiter re-arms itself).
@@ -71,6 +73,7 @@ structure State where
   serial   : Nat := 0
   log      : List CEv := []                 -- ghost: every event so far
   svcGone  : Bool := false                  -- every service handle has been dropped: no further `call`
+  bomb     : List Nat := []                 -- requests whose inner call yields a value that panics when it is cloned
 deriving Repr
 
 inductive Op
@@ -79,6 +82,7 @@ inductive Op
   | drop (c : Nat)
   | adv (ms : Nat)
   | dropsvc                                 -- the last `CoalesceService` handle (and the layer) is dropped
+  | bomb (c : Nat)                          -- the value the inner call of request `c` yields cannot be cloned (its `Clone` panics)
 deriving Repr
 
 /-- the leader registered for `key` in the map, if any -/
@@ -129,9 +133,23 @@ def finishLeader (s : State) (c key k : Nat) (o : Out) : State :=
   | .panic => emit (retire s c key .closed) [.innerDone c key k .panic, .result c .panic]
   | .never => s
 
+/-- The leader's inner future is ready with a value (`o` = ok or an error) whose `Clone` panics
+(`arrive … clonepanic=1`, `Op.bomb`). The leader clones its result in order to publish it; that clone unwinds out
+of the leader's poll: the leading request PANICS — after its inner call has finished —, so, by the property, the
+key is free at once and the waiters fail with `leader_cancelled`: the channel is closed without a value, exactly
+as when the inner future itself panics. (`S::Response: Clone` / `S::Error: Clone` are the wrapped service's own
+types; the code must not leave the key registered when they unwind. On the tree this was written against it does:
+`registration.key.take()` precedes the clone, see notes/strengthen-coalesce-w5.md.) -/
+def clonePanic (s : State) (c key k : Nat) (o : Out) : State :=
+  emit (retire s c key .closed) [.innerDone c key k o, .result c .panic]
+
 def pollLeader (s : State) (c key k : Nat) : State :=
   match lookup s.doneAt c, lookup s.script c with
-  | some t, some sc => if s.now ≥ t ∧ sc.out ≠ .never then finishLeader s c key k sc.out else s
+  | some t, some sc =>
+      if s.now ≥ t ∧ sc.out ≠ .never then
+        if s.bomb.contains c ∧ sc.out ≠ .panic then clonePanic s c key k sc.out
+        else finishLeader s c key k sc.out
+      else s
   | _, _ => s
 
 def dropLeader (s : State) (c key k : Nat) : State :=
@@ -158,6 +176,7 @@ def stepS (s : State) (op : Op) : State :=
   match op with
   | .adv ms => { s with now := s.now + ms }
   | .dropsvc => { s with svcGone := true }
+  | .bomb c => { s with bomb := c :: s.bomb }
   | .arrive c key sc cp =>
       if s.svcGone then s else           -- nobody holds a handle to call through
       match lookup s.role c with
@@ -181,14 +200,44 @@ def run (ops : List Op) : State := ops.foldl stepS init
 
 /-! ## line protocol -/
 
-/-- The request an `arrive c …` line stands for. Only `key=`, `inner=` and `callpanic=` are looked at. In
+/-! ### several services built from one layer value (`arrive … svc=<i>`)
+
+`Layer::layer` hands every service it builds an in-flight table of its own (`CoalesceService::new`:
+`Arc::new(InFlight::new())`); a `CoalesceService` shares its table with its own clones and with nothing else — not
+with another service built from the same `CoalesceLayer` value, nor with one built from a clone of that layer (the
+layer only carries the key extractor and the name). "The wrapped service" of the property is the service given to
+that one `layer(..)` call: a request to service `j` must never be answered with the result of a call made through
+service `i` (they may wrap different back-ends). So a family of services is a family of independent instances of
+this model that have the caller ids and the source of the serial numbers (the harness gives them clones of one
+back-end) in common. Because the model's key space is all of `Nat` and every theorem is for every key, that family
+IS this model over the key space (service, key): `svcKey i key` is an injective pairing
+(`TR.Coalesce.svcKey_inj`), the table of instance `i` is `fun key => reg s (svcKey i key)`, and an operation on a
+request of instance `i` leaves every entry of every other instance untouched
+(`TR.Props.C11.services_do_not_share`, `TR.Coalesce.step_other_key`). -/
+
+/-- triangular numbers -/
+def tri : Nat → Nat
+  | 0 => 0
+  | n + 1 => tri n + n + 1
+
+/-- the model's key for `key` on service number `svc` (Cantor pairing) -/
+def svcKey (svc key : Nat) : Nat := tri (svc + key) + key
+
+/-- The request an `arrive c …` line stands for. Only `key=`, `svc=`, `inner=` and `callpanic=` are looked at. In
 particular the word `via=clone|template|swap|readyclone` — HOW the caller got hold of the `CoalesceService` handle
 it calls: a clone made for this request, the one handle everybody shares (a `&mut svc` used for several
 overlapping requests, never cloned), the `mem::replace` idiom, a clone of a handle that was polled ready — does
 not exist for the model: coalescing is a matter of the key and of what is in flight, not of the handle
-(`TR.Props.C11.caller_mode_irrelevant`). -/
+(`TR.Props.C11.caller_mode_irrelevant`). Nor do `unwind=1` (the call future is owned by the frame that polls it: a
+panic raised by its own poll destroys it DURING the unwinding instead of after the panic was caught), `eclone=1`
+(the caller looks at a clone of what it received), `keep=1` (`TR.Props.C11.caller_behaviour_irrelevant`). -/
 def arriveOp (c : Nat) (kv : Kv) : Op :=
-  .arrive c (kv.nat "key" 0) ((planOf kv).headD { lat := 0, out := .ok }) (kv.nat "callpanic" 0 == 1)
+  .arrive c (svcKey (kv.nat "svc" 0) (kv.nat "key" 0)) ((planOf kv).headD { lat := 0, out := .ok }) (kv.nat "callpanic" 0 == 1)
+
+/-- the operations an `arrive c …` line stands for: with `clonepanic=1` it first says that the value this request's
+inner call produces (if the request leads one) panics when it is cloned -/
+def arriveOps (c : Nat) (kv : Kv) : List Op :=
+  (if kv.nat "clonepanic" 0 == 1 then [Op.bomb c] else []) ++ [arriveOp c kv]
 
 def parseOp (ws : List String) : Option Op :=
   match ws with
@@ -330,6 +379,12 @@ def machine : Machine where
         | _, _ => ((s, hooks), [])
     | "manual" :: "herd" :: rest => ((s, hooks), [.raw (herdLine (parseKv rest))])
     | "manual" :: "finish" :: rest => ((s, hooks), [.raw (finishLine (parseKv rest))])
+    | _ =>
+    match ws with
+    | "arrive" :: c :: rest =>
+        let c := c.toNat?.getD 0
+        let s' := (arriveOps c (parseKv rest)).foldl stepS s
+        ((s', hooks), if s.svcGone then [.raw "noop"] else (s'.log.drop s.log.length).map CEv.toEv)
     | _ =>
     match parseOp ws with
     | some (.drop c) =>
